@@ -126,6 +126,7 @@ type Engine struct {
 	fbCache        map[*Term]*Term
 	unwindViolation string
 	freezeGlobalValues bool
+	schedOnlyChan      bool
 }
 
 type Stats struct {
@@ -257,6 +258,7 @@ func (e *Engine) resetPath(prefix []Decision) {
 	e.Outputs = nil
 	e.fbCache = nil
 	e.unwindViolation = ""
+	e.schedOnlyChan = false
 	e.MaxForks = 100000
 	// fresh term table per path keeps memory bounded; variable names are
 	// deterministic per path so solver declarations can be reused.
